@@ -111,3 +111,41 @@ func checkC12(c *Ctx, r *rep.Report) {
 		ruleDecode(r, p)
 	}
 }
+
+func init() {
+	register("C06", "other", checkC06)
+	register("C17", "other", checkC17)
+}
+
+func checkC06(c *Ctx, r *rep.Report) {
+	r.Explanation = "B: in the batch verifier every per-entry access (three input slices, result vector, failBatch argument) uses the entry index i+offset in every loop (B1); the scratch slot map pairs S_i, h_i and R_i with the same randomiser (B2); phases are ordered and guarded by the fast-path flag (B3); every early exit marks the entry false, sets the summary bit and forces the fallback, an out-of-range S only marks the entry (B4/B5); the per-entry guards of the fast path are exactly the single verifier's (B6); fresh 16-byte randomisers are read per chunk (B7); scratch and flag are re-initialised per chunk (B8); fallback and remainder decide entry e by the single verifier on (publicKeys[e], messages[e], sigs[e], opts); the shared hash object is clean at every iteration boundary (H); returns are (ret==0, valid, nil) or (false, nil, err)."
+	r.NotDecided = "the probabilistic soundness of the random linear combination and the arithmetic of the multi-scalar multiplication (C17)"
+	p, rl := c.mustLoad(r, "amd64-default")
+	if p == nil {
+		return
+	}
+	fl := rootFlags(r, p, rl)
+	if fl == nil {
+		return
+	}
+	ruleBatchAll(c, r, p, rl, fl)
+	ruleNoPanic(r, p, rl)
+	ruleVerifyCore(r, p, rl, fl, "G-verify")
+	ruleBatchNeutral(r, p, rl)
+}
+
+func checkC17(c *Ctx, r *rep.Report) {
+	r.Explanation = "B2/B3/B8: the batch equation is set up over the right terms — term k pairs scalars[k] with points[k], the same randomiser multiplies S_i, h_i and R_i, the base point sits in slot 0, the count is 2n+1, summation precedes slot reuse, scratch and flag are re-initialised per chunk — and the fallback is entered iff the flag is false, which only failBatch or a failed cofactored identity test can cause."
+	r.NotDecided = "exactness of the Bos-Coster heap arithmetic (data-dependent loop invariants; see DESIGN section 7)"
+	p, rl := c.mustLoad(r, "amd64-default")
+	if p == nil {
+		return
+	}
+	fl := rootFlags(r, p, rl)
+	if fl == nil {
+		return
+	}
+	ruleBatchAll(c, r, p, rl, fl)
+	ruleBatchNeutral(r, p, rl)
+	ruleCofactor(r, p)
+}
